@@ -44,6 +44,34 @@ Theorem C29_metamodel_doc : forall w, gen metamodel_doc w -> drun DOut w = Some 
 Proof. exact metamodel_doc_quotes. Qed.
 Print Assumptions C29_metamodel_doc.
 
+(* ---- record labels (all nodes have shape=record): Graphviz reports "bad label format" and exits non-zero
+   when a label's braces, pipes and angle brackets do not form a record.
+   For every string, dot_escape and dot_repr expose no structuring character and leave no backslash behind
+   that could swallow the next character (record-label scanner of shapes.c). *)
+Theorem C29_escape_record_safe : forall s, rrun RNorm (dot_escape s) = Some RNorm /\ rrun RNorm (dot_repr_str s) = Some RNorm.
+Proof. intro s. split; [exact (dot_escape_rrun s) | exact (dot_repr_rrun s)]. Qed.
+Print Assumptions C29_escape_record_safe.
+
+(* every text that the label templates of the node statements (translated from the source) can produce is one
+   flat record  { field | field ... }  with nothing after the closing brace *)
+Theorem C29_labels_sound : forall t, label_ok t = true -> forall w, gen t w -> lrun LStart w = Some LDone.
+Proof. exact label_sound. Qed.
+Print Assumptions C29_labels_sound.
+
+Theorem C29_model_labels : forall t w, In t model_labels -> gen t w -> lrun LStart w = Some LDone.
+Proof. exact model_labels_record. Qed.
+Print Assumptions C29_model_labels.
+
+Theorem C29_metamodel_labels : forall t w, In t metamodel_labels -> gen t w -> lrun LStart w = Some LDone.
+Proof. exact metamodel_labels_record. Qed.
+Print Assumptions C29_metamodel_labels.
+
+(* ---- PlantUML: in everything written before the legend (header, class blocks, links) braces open and close
+   alternately: each class body is closed before anything else opens, none closes twice *)
+Theorem C29_plantuml_balanced : forall w, gen (plantuml_body plantuml_doc) w -> brun false w = Some false.
+Proof. exact plantuml_braces. Qed.
+Print Assumptions C29_plantuml_balanced.
+
 (* non-vacuity: a hostile value, and a template whose hole sits inside a string *)
 Example C29_escape_example :
   dot_escape [97; 34; 92; 10; 123]%N = [97; 92; 34; 92; 92; 92; 92; 110; 92; 123]%N
@@ -63,3 +91,25 @@ Proof.
   - rewrite <- (app_nil_r [34; 59]%N). apply (GCatCons (TLit [34; 59]%N) [] [34; 59]%N [] (GLit _) GCatNil).
 Qed.
 Print Assumptions C29_templates_nonvacuous.
+
+Example C29_labels_nonvacuous :
+  model_labels <> [] /\ metamodel_labels <> []
+  /\ label_ok (TCat [TLit [123]%N; THole HEscaped; TLit [124; 125]%N]) = true
+  /\ label_ok (TCat [TLit [123]%N; THole HRaw; TLit [124; 125]%N]) = false
+  /\ lrun LStart ([123] ++ dot_escape [124; 125; 92]%N ++ [124; 125])%N = Some LDone
+  /\ lrun LStart [123; 124; 125; 124; 125]%N = None.
+Proof. split; [exact (proj1 labels_present)|]. split; [exact (proj2 labels_present)|]. vm_compute. repeat split; reflexivity. Qed.
+Print Assumptions C29_labels_nonvacuous.
+
+Example C29_plantuml_nonvacuous :
+  gen (plantuml_body (TCat [TLit [99; 32]%N; THole HIdent; TLit [32; 123; 10; 125; 10]%N; TLit [101]%N])) [99; 32; 65; 32; 123; 10; 125; 10]%N
+  /\ brun false [123; 123]%N = None /\ brun false [125]%N = None.
+Proof.
+  split; [|vm_compute; split; reflexivity].
+  cbn [plantuml_body removelast].
+  apply (GCatCons (TLit [99; 32]%N) _ [99; 32]%N _ (GLit _)).
+  apply (GCatCons (THole HIdent) _ [65]%N [32; 123; 10; 125; 10]%N).
+  - apply GHole. reflexivity.
+  - rewrite <- (app_nil_r [32; 123; 10; 125; 10]%N). apply (GCatCons (TLit [32; 123; 10; 125; 10]%N) [] _ [] (GLit _) GCatNil).
+Qed.
+Print Assumptions C29_plantuml_nonvacuous.
